@@ -1022,6 +1022,10 @@ const PAIR_INPUTS: &[&str] = &[
     "@a{1/0}", "@a{1/2}", "@a{} @&b{}", "@b{} @&b{}", "@a|b|c{}", "@a|b{}", "@&(9)x{}", "@x{}\n\n@&(~1)x{}", "~{5%kg}", "~{5%min}", "~{x%min}",
     ">> [mode]: bogus\n@a{}", ">> [mode]: steps\n@a{}\n\n@a{}", ">> [duplicate]: ref\n@a{1%kg} @a{2%g}", "@a{1%kg} @&a{2%l}", "@a{1%kg} @&a{2%g}", "@@x{}", "@@xy{}", "#p{1%kg}", "#p{1}",
     "@-?-?salt{}", "@salt{}", "Add 5 g and 3 kg", "Add 5 x and 3 y",
+    // look-alikes: a character of the Basic Multilingual Plane and one of another plane with the same low 16 bits
+    // but another category (dash / private use, ideographic space / hieroglyph, fullwidth mark / unassigned), where
+    // the category decides how a single-word name ends
+    "Add @salt— now", "Add @salt\u{f2014} now", "@x\u{3000}y{} #pan\u{3000}big", "@x\u{13000}y{} #pan\u{13000}big", "@name！ok ~t！", "@name\u{1ff01}ok ~t\u{1ff01}", "#pan… @a…b{}", "#pan\u{f2026} @a\u{f2026}b{}",
 ];
 
 fn pair_image(p: &CooklangParser, src: &str) -> String {
@@ -1093,7 +1097,7 @@ fn pairs_part(run: &mut Run) {
         }
     }
     st.sample(|| json!(PAIR_INPUTS[0]));
-    run.add_part("pairs", &format!("all {} ordered pairs of a catalogue of {n} inputs (valid ones and ones that take an error path: duplicate servings, bad durations, YAML errors, dangling references, zero denominators, bad modes, non-time timer units ..., sharing numbers, names and keys): a thread parses the first, then the second (plain and with options, full and metadata-only); the second image must equal that input's image on a thread that parsed nothing else; every pair is non-trivial", n * n), st, true);
+    run.add_part("pairs", &format!("all {} ordered pairs of a catalogue of {n} inputs (valid ones and ones that take an error path: duplicate servings, bad durations, YAML errors, dangling references, zero denominators, bad modes, non-time timer units ..., sharing numbers, names and keys; and look-alike texts whose characters differ only in the Unicode plane): a thread parses the first, then the second (plain and with options, full and metadata-only); the second image must equal that input's image on a thread that parsed nothing else; every pair is non-trivial", n * n), st, true);
     if let Some((v, case)) = fail {
         run.fail("pairs", v, case);
     }
